@@ -19,7 +19,9 @@
 (*     c.fd = feeders of agc.params (the params the aggregator works with)   *)
 (*     upd                                       updatedFeederIDs            *)
 (*   plus h (height of the block being executed), c (the configuration) and  *)
-(*   pw (current validator powers: x/dogfood's set = agc.validatorsPower).   *)
+(*   pw (agc.validatorsPower), cv (the validator map of the package-level    *)
+(*   cache cs, a separate copy that the EndBlock merges validator updates    *)
+(*   into) and dv (x/dogfood's stored validator set, read after a restart).  *)
 (* Entry points are FUNCTIONS transcribed step by step from the Go code:    *)
 (*   DeliverTx  ante (IncrementSequenceDecorator: nonces) + msg_server_     *)
 (*              create_price.go + aggregator/*.go                            *)
@@ -103,14 +105,14 @@ KVFields == {"prices", "nonce", "rmsgs", "rmIdx", "rparams", "rpIdx", "vub", "kf
 WithKVOf(A, B) == [A EXCEPT !.prices = B.prices, !.nonce = B.nonce, !.rmsgs = B.rmsgs, !.rmIdx = B.rmIdx,
                             !.rparams = B.rparams, !.rpIdx = B.rpIdx, !.vub = B.vub, !.kfd = B.kfd]
 \* the process-local part of B with everything else of A
-WithMemOf(A, B) == [A EXCEPT !.rounds = B.rounds, !.aggs = B.aggs, !.cmsgs = B.cmsgs, !.cvu = B.cvu, !.cpu = B.cpu, !.upd = B.upd, !.cfd = B.cfd, !.c = B.c]
+WithMemOf(A, B) == [A EXCEPT !.rounds = B.rounds, !.aggs = B.aggs, !.cmsgs = B.cmsgs, !.cvu = B.cvu, !.cpu = B.cpu, !.upd = B.upd, !.cfd = B.cfd, !.c = B.c, !.cv = B.cv, !.pw = B.pw]
 
 (***************************************************************************)
 (* genesis: InitChain + BeginBlock(1) (initAggregatorContext:               *)
 (* PrepareRoundEndBlock(0) is a no-op, both cache flags are set)            *)
 (***************************************************************************)
 InitState(c) ==
-  [ h |-> 1, c |-> c, pw |-> c.pw,
+  [ h |-> 1, c |-> c, pw |-> c.pw, cv |-> c.pw, dv |-> c.pw,
     prices |-> [t \in TOKENS |-> IF c.gen[t] > 0 THEN [next |-> 2, list |-> <<[r |-> 1, p |-> Some(NC(c.gen[t]))]>>]
                                  ELSE [next |-> 1, list |-> <<>>]],
     nonce |-> <<>>, rmsgs |-> <<>>, rmIdx |-> <<>>, rparams |-> <<>>, rpIdx |-> <<>>, vub |-> 0, kfd |-> c.fd,
@@ -389,8 +391,11 @@ ApplyVU(pw, vu) == LET m == [v \in DOMAIN pw \cup DOMAIN vu |-> IF v \in DOMAIN 
 EndBlock(S, vu) ==
   LET c  == S.c
       h  == S.h
+      \* x/dogfood applied vu to its stored set earlier in this block; the oracle merges vu into the CACHE's validator
+      \* map (cs.AddCache(ItemV)) and gives the aggregator every validator of the cache (cs.GetCache -> SetValidatorPowers)
       S0 == IF vu = <<>> THEN S
-            ELSE [S EXCEPT !.pw = ApplyVU(S.pw, vu), !.cvu = @ \/ ApplyVU(S.pw, vu) # S.pw]
+            ELSE [S EXCEPT !.dv = ApplyVU(S.dv, vu), !.cv = ApplyVU(S.cv, vu), !.pw = ApplyVU(S.cv, vu),
+                           !.cvu = @ \/ ApplyVU(S.cv, vu) # S.cv]
       sr == SealRound(S0, h, vu # <<>>)
       S1 == [S0 EXCEPT !.rounds = sr.rounds, !.aggs = sr.aggs]
       S2 == FoldLeft(LAMBDA acc, f : RemoveNonces(acc, f), S1, sr.sealed)
@@ -436,7 +441,9 @@ Recache(S) ==
       from0 == ReplayFrom0(S)
       to == H
       \* caches after recache: params item = the stored params (AddCache(ItemP(GetParams))), flags cleared by SkipCommit
-      E  == [S EXCEPT !.rounds = <<>>, !.aggs = <<>>, !.cmsgs = <<>>, !.cvu = FALSE, !.cpu = FALSE, !.upd = <<>>, !.cfd = S.kfd]
+      \* validator powers and the cache's validator map are both rebuilt from x/dogfood's stored set
+      E  == [S EXCEPT !.rounds = <<>>, !.aggs = <<>>, !.cmsgs = <<>>, !.cvu = FALSE, !.cpu = FALSE, !.upd = <<>>, !.cfd = S.kfd,
+                      !.pw = S.dv, !.cv = S.dv]
       \* the last lines of recache: agc.params := stored params
       Fin(A) == CloseFinalized(WithFd(A, S.kfd))
       Ok(A) == [st |-> Fin(A), err |-> ""]
@@ -543,6 +550,7 @@ Apply(S, ev, a) ==
     LET E == EndBlock(S, a.vu) IN IF a.restart THEN Recache(E) ELSE [st |-> E, err |-> ""]
   ELSE IF ev = "Upd" THEN UpdateParams(S, a)
   ELSE IF ev = "Add" THEN AddFeeder(S, a)
+  ELSE IF ev = "Stake" THEN [st |-> S, err |-> ""]     \* a delegation: no oracle state changes until the epoch ends
   ELSE [st |-> S, err |-> "unknown event"]
 
 (***************************************************************************)
@@ -590,5 +598,5 @@ AddSubs(subs, c, h, msgs) ==
 (***************************************************************************)
 Stored(S) == [prices |-> S.prices, nonce |-> S.nonce, rmsgs |-> S.rmsgs, rmIdx |-> S.rmIdx,
               rparams |-> S.rparams, rpIdx |-> S.rpIdx, vub |-> S.vub, kfd |-> S.kfd]
-Mem(S) == [rounds |-> S.rounds, aggs |-> S.aggs, cmsgs |-> S.cmsgs, cvu |-> S.cvu, cpu |-> S.cpu, upd |-> S.upd, cfd |-> S.cfd, afd |-> S.c.fd]
+Mem(S) == [pw |-> S.pw, cv |-> S.cv, rounds |-> S.rounds, aggs |-> S.aggs, cmsgs |-> S.cmsgs, cvu |-> S.cvu, cpu |-> S.cpu, upd |-> S.upd, cfd |-> S.cfd, afd |-> S.c.fd]
 =============================================================================
